@@ -6,6 +6,7 @@ import Atto.Driver.MpOp
 import Atto.Driver.SessOp
 import Atto.Driver.CharsetOp
 import Atto.Driver.HappyOp
+import Atto.Driver.WdOp
 namespace Atto.Driver
 open Atto
 
@@ -48,6 +49,8 @@ def runLine (line : String) : String :=
   | "charset" :: args => opCharset args
   | "happy" :: args => opHappy args
   | "twine" :: args => opTwine args
+  | "wd" :: args => opWd args
+  | "nop" :: _ => "nop"
   | "penv" :: args => opPenv args
   | _ => "bad-op"
 
